@@ -154,7 +154,7 @@ func runProm(tt *testing.T, tape *simrt.Tape, keep bool) (out simrt.Outcome) {
 				e.fails[r.Error]++
 			}
 		}
-		pool := simrt.SitesIn("bp", "lib/prom/prom.go:Metrics.Observe")
+		pool := simrt.SitesIn("bp", "lib/prom/prom.go:") // every function of the file: helpers of Observe included
 		skips := map[int]int{}
 		var arms []int
 		for i := 0; i < tape.Biased(4, 1, 3) && len(pool) > 0; i++ {
